@@ -207,6 +207,17 @@ BASES = [
         '1040.number_1099-g': '1', '1099-g:0.box_1': '1200', '1099-g:0.box_10a_1': 'NC', '1099-g:0.box_11_1': '48',
         '1040.schedule_1_additional_income': 'yes', '1040_s1.unemployment_income': '1200',
     })),
+    Base('B20-three-ira-copies', ['1040'], {
+        '1040.filing_status': 'MarriedFilingJointly', '1040.number_w-2': '1', 'w-2:0.box_1': '40000', 'w-2:0.box_2': '3000', 'w-2:0.box_5': '40000',
+        '1040.number_1099-r': '3', '1099-r:*.box_7_ira_sep_simple': 'yes',
+        '1099-r:0.belongs_to': 'taxpayer', '1099-r:1.belongs_to': 'spouse', '1099-r:2.belongs_to': 'taxpayer',
+        '1099-r:0.box_1': '5000', '1099-r:0.box_2a': '5000', '1099-r:1.box_1': '3000', '1099-r:1.box_2a': '3000',
+        '1099-r:2.box_1': '2000', '1099-r:2.box_2a': '2000', '1099-r:2.box_4': '150',
+    }),
+    Base('B19-nc-itemized-equals-standard', ['1040', 'nc_d-400'], dict(W2, **{
+        '1040.state': 'NC', 'nc_d-400.county': 'Wake', 'nc_d-400.nc_residents': 'yes', 'nc_d-400.try_itemizing': 'yes',
+        '1040.number_1098': '1', '1098:0.box_1': '12750', 'nc_d-400.no_consumer_use_tax': 'yes',
+    }), per_year={2021: {'1098:0.box_1': '10750'}}),
     Base('B7-dense', ['1040'], {
         '1040.number_w-2': '2', 'w-2:1.belongs_to': 'spouse', '1040.filing_status': 'MarriedFilingJointly',
         '1040.number_1099-int': '1', '1040.number_1099-div': '1', '1040.number_1099-g': '1', '1040.number_1098': '1',
